@@ -155,9 +155,20 @@ PPL::MIP_Problem::MIP_Problem(const dimension_type dim,
                                 "cs contains strict inequalities.");
   }
   // Actually copy the constraints.
-  for (Constraint_System::const_iterator
-         i = cs.begin(), i_end = cs.end(); i != i_end; ++i) {
-    add_constraint_helper(*i);
+  // This is a constructor: if a copy throws, the destructor will not run
+  // and the constraints copied so far must be deleted here.
+  try {
+    for (Constraint_System::const_iterator
+           i = cs.begin(), i_end = cs.end(); i != i_end; ++i) {
+      add_constraint_helper(*i);
+    }
+  }
+  catch (...) {
+    for (Constraint_Sequence::const_iterator i = input_cs.begin(),
+           i_end = input_cs.end(); i != i_end; ++i) {
+      delete *i;
+    }
+    throw;
   }
 
   PPL_ASSERT(OK());
